@@ -16,6 +16,9 @@ FLT_MAX = {"float": Fraction((1 << 24) - 1) * Fraction(2) ** (127 - 23),
            "long double": Fraction((1 << 64) - 1) * Fraction(2) ** (16383 - 63)}
 
 
+FLT_TINY = {"float": Fraction(2) ** -149, "double": Fraction(2) ** -1074, "long double": Fraction(2) ** -16445}
+
+
 class MagExpr:
     """a magnitude with its C++ spelling and exact model value"""
 
@@ -52,7 +55,7 @@ def grid(tier, rng):
         out.append(m(n))
     out += [m(3) / m(2), m(1) / m(1000), m(381) / m(1250), m(5) / m(9), m(2 ** 31) / m(3), m(1) / m(2 ** 64 - 59),
             m(10).pow(18), m(10).pow(19), m(10).pow(20), m(2).pow(62), m(2).pow(63), m(2).pow(64), m(2).pow(65), m(2).pow(127),
-            m(2).pow(128), m(10).pow(38), m(10).pow(39), m(10).pow(308), m(10).pow(309), m(10).pow(-30), m(10).pow(-45),
+            m(2).pow(128), m(10).pow(38), m(10).pow(39), m(10).pow(308), m(10).pow(309), m(10).pow(-30), m(10).pow(-45), m(10).pow(-50), m(10).pow(-330), m(2).pow(-149), m(2).pow(-150), m(2).pow(-1074), m(2).pow(-1075),
             m(2).root(2), m(2).root(3), m(10).root(2), m(8).root(3), m(2 ** 63).root(2), m(3).pow(2).root(3),
             PI, PI.pow(2), PI.pow(-1), PI.root(2), PI / m(180), m(2) * PI, PI * m(10).pow(38), m(2 ** 31 - 1) * m(2 ** 31 - 1),
             m(2 ** 61 - 1) * m(8), m(2 ** 61 - 1) * m(4), m(2 ** 64 - 59).pow(2), m(2 ** 64 - 59).pow(-1), m(3).pow(40), m(3).pow(41),
@@ -178,6 +181,12 @@ class C11(F.Check):
     def model_rep(me, t):
         lo, hi = me.mag.approx()
         if F.ct_is_float(t):
+            # a strictly positive result must exist: values that round to zero (below half the smallest subnormal) do not fit
+            tiny = FLT_TINY[t]
+            if hi <= tiny / 2:
+                return False, True
+            if lo <= tiny:                 # rounds to 0 or to the smallest subnormal: leave the boundary band undecided
+                return False, False
             return (hi <= FLT_MAX[t] or lo <= FLT_MAX[t]), ((hi <= FLT_MAX[t]) or (lo > FLT_MAX[t]))
         return (me.mag.is_integer() and me.mag.as_fraction() <= F.ct_range(t)[1]), True
 
